@@ -1036,11 +1036,11 @@ def mc_optobj(ctx):
         run_mc_text(ctx, "MCOptObj", mcoptobj_cfg(4, False, b), "broken twin optobj:" + b, workers=4, expect_violation=True)
 
 
-def opt_finish(ctx, batches, env, rule, props, exe=None, level="model_checking"):
+def opt_finish(ctx, batches, env, rule, props, exe=None, level="model_checking", crash_prop=None):
     exe = exe or vbuild.opt_replay()
     ctx.family, ctx.tracespec, ctx.env_flags = "opt", "TraceOpt", env
     ctx.samples = ctx.samples or [[c for c in b if c.get("op") in ("opt_new", "set_flags", "evaluate")][:3] for b in batches[:2]]
-    replay_and_validate(ctx, exe, batches, "TraceOpt", env)
+    replay_and_validate(ctx, exe, batches, "TraceOpt", env, crash_prop=crash_prop)
     return finish(ctx, level, rule, TRUSTED,
                   ["time variables in [-1/2, 1/2] so that the decoded durations are well scaled (DESIGN s4); at most 40 unknowns per exact solve",
                    "user cost functors from the polynomial family of harness/opt_iface.hpp (depends on p, v, a, j, s, global time, segment index)"],
@@ -1305,7 +1305,7 @@ def plan_C15(ctx):
                       "broken twins 'verbatim pointer copy' and 'shared workspace' rejected); one script per transition, replayed with STATEFUL "
                       "default and user maps on optimizers placement-constructed in an arena that is overwritten with 0xA5 on destruction; every "
                       "evaluation of every live object must equal the exact cost/gradient of ITS OWN configuration, built-in workspaces have "
-                      "distinct addresses; spline-object copies judged by bit identity", {"C15", "C07", "C08", "C09", "C10"})
+                      "distinct addresses; spline-object copies judged by bit identity", {"C15", "C07", "C08", "C09", "C10"}, crash_prop="C15")
 
 
 # ---------------------------------------------------------------------- C16
@@ -1483,3 +1483,118 @@ def plan_C19(ctx):
 
 
 PLANS.update({"C07": plan_C07, "C08": plan_C08, "C09": plan_C09, "C15": plan_C15, "C16": plan_C16, "C19": plan_C19})
+
+
+# ====================================================================== C12: schedule independence and concurrent evaluation
+def optconc_cfg(evals, npoints, nsegs, workers, mode, prior):
+    return ("SPECIFICATION Spec\nCONSTANTS\n  Evals = %s\n  NPoints = %d\n  NSegs = %d\n  Workers = %s\n  Mode = \"%s\"\n  Prior = %s\nINVARIANT Inv\nCHECK_DEADLOCK FALSE\n"
+            % (evals, npoints, nsegs, workers, mode, "TRUE" if prior else "FALSE"))
+
+
+def c12_execs(r, quick):
+    import itertools
+    execs = []
+    k = 0
+    for rep in range(1 if quick else 12):
+        for order in gen.ORDERS:
+            for N in (1, 2, 3, 4):
+                for fam in (FAMILIES if not quick else FAMILIES[(order + N) % 4:(order + N) % 4 + 1] + FAMILIES[:1]):
+                    k += 1
+                    D = 1 + (k % 3)
+                    p = gen.OptProblem(r, order, D, N, fam[0], fam[1], K=r.choice([1, 2, 3]))
+                    cmds = [{"op": "reset"}] + p.cmds_setup(1) + p.cmds_setup(2)
+                    cp = gen.cost_params(r)
+                    xs = [gen.hv(p.x(r)) for _ in range(4)]
+                    ov = 3 if k % 3 else 2
+                    # reference values: the same calls made one after another on an identically configured second optimizer
+                    for x in xs:
+                        cmds.append({"op": "evaluate", "obj": 2, "x": x, "ws": 0, "costs": cp, "overload": ov})
+                    # concurrent evaluations on the FRESHLY configured optimizer 1 (no prior single-threaded call), then again
+                    nt = 2 + k % 3
+                    cmds.append({"op": "evaluate_mt", "obj": 1, "xs": xs[:nt], "costs": cp, "overload": ov, "rounds": 1})
+                    cmds.append({"op": "evaluate_mt", "obj": 1, "xs": xs[:nt][::-1], "costs": cp, "overload": ov, "rounds": 3})
+                    # every permutation of the segment order (N <= 4) and partitions onto 2..3 threads, through user-level executors
+                    perms = list(itertools.permutations(range(N)))
+                    if quick and len(perms) > 6:
+                        perms = r.sample(perms, 6)
+                    for pm in perms:
+                        cmds.append({"op": "evaluate", "obj": 1, "x": xs[0], "ws": 5, "costs": cp, "overload": ov, "exec": {"kind": "perm", "perm": list(pm)}})
+                    owners = set()
+                    for nth in (2, 3):
+                        for _ in range(3 if quick else 8):
+                            owners.add((nth, tuple(r.randrange(nth) for _ in range(N))))
+                    for (nth, ow) in sorted(owners):
+                        cmds.append({"op": "evaluate", "obj": 1, "x": xs[1], "ws": 0, "costs": cp, "overload": ov,
+                                     "exec": {"kind": "threads", "threads": nth, "owner": list(ow)}})
+                    cmds.append({"op": "evaluate", "obj": 1, "x": xs[2], "ws": 0, "costs": cp, "overload": ov, "exec": {"kind": "default"}})
+                    execs.append((len(cmds) * N * D * (order + 1), cmds))
+    return execs
+
+
+def run_tsan(ctx, exe, batches, jobs=8):
+    """replay the scripts on the ThreadSanitizer build; every distinct data-race report becomes a deviation"""
+    import re as _re
+    from concurrent.futures import ThreadPoolExecutor
+
+    def one(ib):
+        i, cmds = ib
+        base = os.path.join(ctx.work, "t%03d" % i)
+        gen.write_script(base + ".script.ndjson", cmds)
+        env = dict(os.environ)
+        env["TSAN_OPTIONS"] = "halt_on_error=0 report_signal_unsafe=0 exitcode=0 history_size=4"
+        try:
+            p = subprocess.run([exe, base + ".script.ndjson", base + ".trace.ndjson"], capture_output=True, text=True, timeout=1500, env=env)
+        except subprocess.TimeoutExpired:
+            return (i, None, "timeout")
+        return (i, p.stderr, None if p.returncode == 0 else "rc=%d" % p.returncode)
+    with ThreadPoolExecutor(max_workers=jobs) as ex:
+        res = list(ex.map(one, enumerate(batches)))
+    nrep = 0
+    for (i, err, bad) in res:
+        if bad:
+            ctx.infra.append("ThreadSanitizer replay %d failed: %s" % (i, bad))
+            continue
+        reports = err.split("WARNING: ThreadSanitizer: data race")[1:]
+        seen = set()
+        for rep in reports:
+            locs = _re.findall(r"#\d+ (\S+) ([^ ]+\.hpp:\d+)", rep)
+            lib = [(f, l) for (f, l) in locs if "SplineOptimizer.hpp" in l or "SplineTrajectory.hpp" in l]
+            key = tuple(sorted(set(l for _, l in lib)))[:4]
+            if not key or key in seen:
+                continue
+            seen.add(key)
+            nrep += 1
+            funcs = sorted(set(f for f, _ in lib))[:6]
+            ctx.devs.append({"prop": "C12", "code": "tsan.race", "info": {"where": [os.path.basename(x) for x in key], "functions": funcs},
+                             "line": 1, "exec": 1, "batch": i, "script": os.path.join(ctx.work, "t%03d.script.ndjson" % i)})
+    ctx.stats["tsan_replays"] = len(batches)
+    ctx.stats["tsan_reports"] = nrep
+
+
+def plan_C12(ctx):
+    selftest_rat(ctx)
+    q = ctx.quick()
+    run_mc_text(ctx, "OptConcurrent", optconc_cfg("{1, 2}", 2, 1 if q else 2, "{1}" if q else "{1, 2}", "locked", False), "OptConcurrent(locked, fresh)", workers=12, heap="8g", coverage=False)
+    run_mc_text(ctx, "OptConcurrent", optconc_cfg("{1, 2}", 2, 1, "{1}", "unlocked", True), "OptConcurrent(unlocked, prior call)", workers=8, coverage=False)
+    run_mc_text(ctx, "OptConcurrent", optconc_cfg("{1}", 1, 3, "{1, 2}", "locked", False), "OptConcurrent(executor: 3 tasks, 2 workers)", workers=8, coverage=False)
+    if not q:
+        run_mc_text(ctx, "OptConcurrent", optconc_cfg("{1, 2, 3}", 2, 1, "{1}", "locked", False), "OptConcurrent(3 evaluators)", workers=12, heap="10g", coverage=False, timeout=2400)
+    run_mc_text(ctx, "OptConcurrent", optconc_cfg("{1, 2}", 2, 1, "{1}", "unlocked", False), "broken twin: lazy fill without synchronisation", workers=4, expect_violation=True, coverage=False)
+    run_mc_text(ctx, "OptConcurrent", optconc_cfg("{1}", 1, 2, "{1, 2}", "intask", False), "broken twin: reduction inside the tasks", workers=4, expect_violation=True, coverage=False)
+    r = gen.Rng(ctx.seed * 1000003 + 12)
+    execs = c12_execs(r, q)
+    batches = balanced(execs, 32 if q else 96)
+    tsan = vbuild.opt_replay(extra_flags=["-fsanitize=thread", "-O1", "-g"], link_flags=["-fsanitize=thread"], name="opt_replay_tsan")
+    run_tsan(ctx, tsan, balanced(execs, 8 if q else 16))
+    return opt_finish(ctx, batches, {},
+                      "TLC explores every interleaving of 2 (thorough: 3) concurrent evaluators with the lazy layout fill split into its steps, "
+                      "and of executor tasks on 2 workers, under a happens-before definition of a data race (2 broken twins rejected: unsynchronised "
+                      "lazy fill; reduction moved into the per-segment task); on the real class: every permutation of the segment order for N <= 4 "
+                      "and random partitions onto 2..3 threads through user-level executors, 2..4 threads evaluating concurrently on one freshly "
+                      "configured optimizer (no prior single-threaded call) and again afterwards, each with its own workspace - all results must "
+                      "have the bits of the same calls made one after another on an identically configured optimizer; the same scripts are replayed "
+                      "on a ThreadSanitizer build and every reported race in the library is a deviation",
+                      {"C12"}, crash_prop="C12")
+
+
+PLANS.update({"C12": plan_C12})
